@@ -12,7 +12,7 @@ import re
 
 import vlib, ucheck
 from vlib import VERIF
-from C28 import load_known, report, hx, conformance
+from C28 import load_known, report, hx, conformance, deep_stack
 
 SPEC = os.path.join(VERIF, 'spec', 'syntax')
 SCHEMES = ['http', 'https', 'ftp', 'HTTP', 'hTTps', 'ws', 'wss', 'foo', 'coap', 'whois', 'h+t.p-1']
@@ -126,13 +126,23 @@ def pct(path):
     return b''.join(bytes([b]) if b in PATHCHARS else b'%%%02X' % b for b in path)
 
 
+def atoi(t):
+    """(int) strtol(t, NULL, 10) of glibc on LP64"""
+    m = re.match(rb'([+-]?)(\d+)', t)
+    if not m:
+        return 0
+    v = int(m.group(2)) * (-1 if m.group(1) == b'-' else 1)
+    v = max(-2 ** 63, min(2 ** 63 - 1, v))
+    return (v + 2 ** 31) % 2 ** 32 - 2 ** 31
+
+
 def classify(c, i_accepts):
     u = bytes(c['u'])
     pt = port_text(c['m'], u)
     feat = 'other'
     if c['ok'] and pt is not None and pt != b'' and not (re.fullmatch(rb'\d+', pt) and 1 <= int(pt) <= 65535):
         feat = 'bad-port-accepted'
-        if c['m'] != 'CONNECT' and re.fullmatch(rb'[+-]?\d+.*', pt, re.S):
+        if c['m'] != 'CONNECT' and c['port'] == atoi(pt):
             feat = 'port-read-by-atoi'
     elif c['ok'] and not bytes(c['host']):
         feat = 'empty-host-accepted'
@@ -155,6 +165,7 @@ def show(c):
 
 
 def run(ctx):
+    deep_stack()
     mc = vlib.tlc_must_pass(ctx, os.path.join(SPEC, 'MC_UriModel.tla'), os.path.join(SPEC, 'MC_UriModel.cfg'), timeout=900, label='mc-uri')
     ctx.cov['spec_law_states'] = mc.distinct
     ctx.log('reference laws hold on %d component combinations' % mc.distinct)
